@@ -25,8 +25,10 @@
    name") are kept as [*_old] definitions for the refutation witnesses.
 
    etcd is modelled as key-string-indexed maps, one per key family (next offsets,
-   topic configs, partition states, consumer groups, consumer offsets); the families
-   are pairwise disjoint for all names (proofs/MetaStoreProofs.v, etcd_families_disjoint).
+   topic configs, partition states, consumer groups, consumer offsets). That the
+   families never collide is a modelling assumption (their last path element is
+   "next_offset", "config", "metadata" or a decimal number under different parents);
+   the correspondence check would show a collision as a mismatch.
    Maps are association lists with replace-in-place put, so listing order is
    first-insertion order in both store models (the Go orders are map order / etcd key
    order; the correspondence check compares listings as multisets).
